@@ -303,16 +303,25 @@ class Job:
             pass
 
 
-def run_jobs(jobs, nproc=None, on_done=None):
+def run_jobs(jobs, nproc=None, on_done=None, deadline=None, on_drop=None):
     """run jobs on a pool of forked processes; on_done(job) may return
-    follow-up jobs (used to re-queue unexplored prefixes)"""
+    follow-up jobs (used to re-queue unexplored prefixes).  Jobs with a
+    lower `prio` start first; after `deadline` no further job is started
+    (on_drop is told about each one left)"""
     nproc = nproc or int(os.environ.get('SYMX_PROCS', os.cpu_count() or 4))
     pending = list(jobs)
     running = []
     done = []
     while pending or running:
+        if deadline is not None and pending and time.time() > deadline:
+            for j in pending:
+                if on_drop is not None:
+                    on_drop(j)
+            pending = []
         while pending and len(running) < nproc:
-            j = pending.pop(0)
+            i = min(range(len(pending)),
+                    key=lambda k: getattr(pending[k], 'prio', 0))
+            j = pending.pop(i)
             j.start()
             running.append(j)
         still = []
@@ -374,15 +383,28 @@ def main(argv=None):
     # ---- phase 1: symbolic exploration (optionally split by frontier)
     jobs = []
     pre = {}
+    # the thorough tier is time-boxed: the quick cases are explored first
+    # and completely, the larger cases as far as the budget allows; what
+    # was left unexplored is stated in the output and in the evidence
+    budget = float(os.environ.get(
+        'VERIF_BUDGET_S', '900' if tier == 'thorough' else '0') or 0)
+    deadline = t0 + budget if budget > 0 else None
+    cut = {}
+
+    def note_cut(j, n):
+        k = (j.h.name, json.dumps(j.case, sort_keys=True, default=str))
+        cut[k] = cut.get(k, 0) + n
+
     for h in harnesses:
         for ci, case in enumerate(h.cases_for(tier)):
             if h.split:
-                jobs.append(Job(modname, h, case, 'sym',
-                                {'frontier': h.split, 'ci': ci,
-                                 'phase': 'split'}))
+                j = Job(modname, h, case, 'sym',
+                        {'frontier': h.split, 'ci': ci, 'phase': 'split'})
             else:
-                jobs.append(Job(modname, h, case, 'sym',
-                                {'ci': ci, 'yield_after': 300}))
+                j = Job(modname, h, case, 'sym',
+                        {'ci': ci, 'yield_after': 300})
+            j.prio = 0 if case in h.cases else 1
+            jobs.append(j)
     results = []
     ncpu = os.cpu_count() or 4
 
@@ -395,14 +417,30 @@ def main(argv=None):
         results.append((j.h, j.case, r))
         if not fr:
             return []
+        if deadline is not None and getattr(j, 'prio', 0) > 0 and \
+                time.time() > deadline:
+            note_cut(j, len(fr))
+            return []
         # hand the unexplored prefixes out in small batches; a batch that
         # turns out to be large gives the rest back after yield_after paths
         k = max(1, len(fr) // (2 * ncpu) + 1)
-        return [Job(modname, j.h, j.case, 'sym',
-                    {'seeds': fr[i:i + k], 'ci': j.payload['ci'],
-                     'yield_after': 150})
-                for i in range(0, len(fr), k)]
-    run_jobs(jobs, on_done=requeue)
+        out = [Job(modname, j.h, j.case, 'sym',
+                   {'seeds': fr[i:i + k], 'ci': j.payload['ci'],
+                    'yield_after': 150})
+               for i in range(0, len(fr), k)]
+        for x in out:
+            x.prio = getattr(j, 'prio', 0)
+        return out
+
+    def dropped(j):
+        if getattr(j, 'prio', 0) == 0:
+            return
+        note_cut(j, len(j.payload.get('seeds') or [None]))
+    # jobs of the quick cases are never dropped: give them a queue of
+    # their own first
+    run_jobs([j for j in jobs if j.prio == 0], on_done=requeue)
+    run_jobs([j for j in jobs if j.prio > 0], on_done=requeue,
+             deadline=deadline, on_drop=dropped)
 
     # ---- phase 2: differential self-test of the shims
     st_jobs = []
@@ -595,6 +633,14 @@ def main(argv=None):
                     'outcomes': d['outcomes'], 'aborted_why': d['aborts'],
                     'cpu_s': round(d['wall_s'], 2)}
                for hn, d in per_h.items()}
+    cases_cut = [{'harness': hn, 'case': json.loads(c),
+                  'unexplored_prefixes': n}
+                 for (hn, c), n in sorted(cut.items())]
+    if cases_cut:
+        print(f"PARTIAL: time box of {budget:.0f} s reached; "
+              f"{len(cases_cut)} of the larger cases were not explored to "
+              "the end (listed in the evidence); every quick-tier case "
+              "was explored completely")
     print(f"{prop} tier={tier}: harnesses={len(harnesses)} "
           f"paths={st['paths']} obligations={st['obligations']} "
           f"discharged={st['discharged']} violated={st['violated']} "
@@ -631,7 +677,10 @@ def main(argv=None):
                     'rechecked': st['xchecked'], 'agree': st['xagree'],
                     'cvc5_unknown_or_timeout': st['xunknown'],
                     'disagree': st['xdisagree']},
-                'exhaustive': status == 'ok',
+                'exhaustive': status == 'ok' and not cases_cut,
+                'time_box': {'budget_s': budget,
+                             'cases_not_explored_to_the_end': cases_cut[:60],
+                             'n_cases_cut': len(cases_cut)},
                 'status': status,
                 'harnesses': {
                     h.name: {
